@@ -13,8 +13,8 @@ from .ops import NeedBox, Op, const_literal, err, is_simple, mangle, unsupported
 _CMP_OPS = frozenset(["==", "!=", "<", "<=", ">", ">="])
 _ARITH_OPS = frozenset(["+", "-", "*", "/", "%", "&", "|", "^", "&^"])
 _PY_CMP = {"==": "==", "!=": "!=", "<": "<", "<=": "<=", ">": ">", ">=": ">="}
-MAX_CONST_SHIFT = 4096
-MAX_CONST_BITS = 1 << 16
+MAX_CONST_SHIFT = 1074  # go/types: shiftBound = 1023 - 1 + 52
+MAX_CONST_BITS = 512  # go/types keeps 512 bits of precision for untyped constants
 
 
 class ExprMixin:
@@ -634,6 +634,8 @@ class ExprMixin:
             r = x.val << n if op == "<<" else x.val >> n
             if not b.untyped and not T.representable(r, xt):
                 err(e, f"constant {r} overflows {T.type_str(xt)}")
+            if b.untyped and r.bit_length() > MAX_CONST_BITS:
+                err(e, "constant shift overflow")
             return Op("const", xt, val=r)
         if b.untyped:
             # non-constant shift of an untyped constant (or of a lazy value):
